@@ -39,3 +39,23 @@ def c05() -> Monitors:
 
 def c19() -> Monitors:
     return Monitors("C19", [m.c19_transition, m.cov_matrix], [], m.outcome_vector)
+
+
+def c18() -> Monitors:
+    return Monitors("C18", [m.c18_transition, m.cov_matrix], [], m.outcome_vector)
+
+
+def c16() -> Monitors:
+    return Monitors("C16", [m.c16_transition, m.cov_matrix], [], m.outcome_vector)
+
+
+def c09_atomicity() -> Monitors:
+    return Monitors("C09", [m.c09_atomicity, m.cov_matrix], [], m.outcome_vector)
+
+
+def c09_precedence() -> Monitors:
+    return Monitors("C09", [m.c09_precedence], [], m.outcome_vector)
+
+
+def c10() -> Monitors:
+    return Monitors("C10", [m.c10_transition, m.cov_matrix], [m.c10_initial], m.outcome_vector)
